@@ -65,6 +65,102 @@ Fixpoint run_file (ts : list test) (c : counter) : list tcase * counter :=
               let (cs2, c2) := run_file r c1 in (cs1 ++ cs2, c2)
   end.
 
+(* ---- describe groups (runDescribedTests): ONE interpreter for the whole group; for every
+   (test, scope): a new Debugger, the before_<scope> hook, the test, the after_<scope> hook, all on
+   that interpreter in order.  A hook that raises (or whose assertion fails) makes runDescribedTests
+   return an error: Tester.Run fails and there is no report at all ([None]).  Log lines of the
+   before hook are part of the case's logs; those of the after hook come after the case was
+   recorded and are lost. *)
+Record group := { g_name : N; g_before : scope -> option body; g_after : scope -> option body;
+                  g_tests : list test }.
+
+Definition run_hook (h : option body) (s : scope) (σ : istate) (c : counter)
+  : option (list logline * istate * counter) :=
+  match h with
+  | None => Some ([], σ, c)
+  | Some b => match run_body s b σ with
+              | (k, Pass, lg, σ') => Some (lg, σ', c_pass k c)
+              | _ => None
+              end
+  end.
+
+Fixpoint grp_scopes (g : group) (t : test) (ss : list scope) (σ : istate) (c : counter)
+  : option (list tcase * istate * counter) :=
+  match ss with
+  | [] => Some ([], σ, c)
+  | s :: r =>
+      if t_skip t then
+        match grp_scopes g t r σ (c_skip c) with
+        | Some (cs, σ', c') =>
+            Some ({| tc_name := t_name t; tc_scope := s; tc_skip := true; tc_verdict := Pass; tc_logs := [] |} :: cs, σ', c')
+        | None => None
+        end
+      else
+        match run_hook (g_before g s) s σ c with
+        | None => None
+        | Some (lg0, σ0, c0') =>
+          match run_body s (t_body t) σ0 with
+          | (k, v, lg, σ1) =>
+            let c1 := c_pass k c0' in
+            let c2 := match v with Pass => c1 | FailAssert => c_fail 2 c1 | FailRuntime => c_fail 1 c1 end in
+            match run_hook (g_after g s) s σ1 c2 with
+            | None => None
+            | Some (_, σ2, c3) =>
+              match grp_scopes g t r σ2 c3 with
+              | Some (cs, σ', c') =>
+                  Some ({| tc_name := t_name t; tc_scope := s; tc_skip := false; tc_verdict := v;
+                           tc_logs := lg0 ++ lg |} :: cs, σ', c')
+              | None => None
+              end
+            end
+          end
+        end
+  end.
+
+Fixpoint grp_tests (g : group) (ts : list test) (σ : istate) (c : counter)
+  : option (list tcase * istate * counter) :=
+  match ts with
+  | [] => Some ([], σ, c)
+  | t :: r =>
+      match grp_scopes g t (t_scopes t) σ c with
+      | None => None
+      | Some (cs1, σ1, c1) =>
+        match grp_tests g r σ1 c1 with
+        | None => None
+        | Some (cs2, σ2, c2) => Some (cs1 ++ cs2, σ2, c2)
+        end
+      end
+  end.
+
+(* a statement of the test file: an ungrouped test subroutine, or a describe group *)
+Inductive item := ISingle (t : test) | IGroup (g : group).
+Definition gcase := (option N * tcase)%type.          (* the group a case belongs to *)
+
+Definition run_item (i : item) (c : counter) : option (list gcase * counter) :=
+  match i with
+  | ISingle t => let (cs, c') := run_test t c in Some (map (fun x => (None, x)) cs, c')
+  | IGroup g =>
+      match grp_tests g (g_tests g) init c with
+      (* the TestCase of a skipped test carries no Group *)
+      | Some (cs, _, c') => Some (map (fun x => (if tc_skip x then None else Some (g_name g), x)) cs, c')
+      | None => None
+      end
+  end.
+
+Fixpoint run_items (is : list item) (c : counter) : option (list gcase * counter) :=
+  match is with
+  | [] => Some ([], c)
+  | i :: r =>
+      match run_item i c with
+      | None => None
+      | Some (cs1, c1) =>
+        match run_items r c1 with
+        | None => None
+        | Some (cs2, c2) => Some (cs1 ++ cs2, c2)
+        end
+      end
+  end.
+
 (* runTest: `if factory.Statistics.Fails > 0 { return ErrExit }` *)
 Definition exit_status (c : counter) : nat := match fails c with O => 0 | S _ => 1 end.
 
@@ -106,6 +202,12 @@ Definition run_body_steps (sc : scope) (b : list step) (σ : istate) := run_step
 
 End Steps.
 
+Arguments g_name {scope body}.
+Arguments g_before {scope body}.
+Arguments g_after {scope body}.
+Arguments g_tests {scope body}.
+Arguments ISingle {scope body}.
+Arguments IGroup {scope body}.
 Arguments t_name {scope body}.
 Arguments t_scopes {scope body}.
 Arguments t_skip {scope body}.
